@@ -49,6 +49,11 @@ async function checkTree(req) {
       res.files.push({ file: rel, stage: 'module-parse', error: String(e.message).split('\n')[0].slice(0, 300) });
     }
   }
+  if (res.files.length > 0) {
+    // files that do not even parse: linking the rest of the tree would only report the consequences
+    res.partial = true;
+    return res;
+  }
   const external = new Map();
   const linker = (spec, ref) => {
     const target = resolveImport(ref.identifier, spec, modules);
